@@ -198,6 +198,12 @@ void h_ts_sort(void)
     cmb_timeseries_terminate(&c2);
     cmb_timeseries_sort_t(&c);
     for (uint64_t i = 0; i + 1 < n1; i++) sym_assert(c.ta[i] <= c.ta[i + 1], "sort_t output is ascending in time");
+    /* back in time order every sample still has its own value, time and duration (equal time stamps may be permuted) */
+    for (uint64_t i = 0; i < n1; i++) {
+        int found = 0;
+        for (uint64_t j = 0; j < n1; j++) found |= (c.ds.xa[j] == ts.ds.xa[i] && c.ta[j] == ts.ta[i] && c.wa[j] == ts.wa[i]);
+        sym_assert(found, "sorting back by time keeps every sample together with its own time and weight");
+    }
     /* a copy can be extended: the arrays of the copy have room for what its bookkeeping says */
     double last = c.ta[n1 - 1];
     cmb_timeseries_add(&c, 1.0, last + 1.0);
